@@ -3,6 +3,7 @@ package gen
 import (
 	"errors"
 	"fmt"
+	"io"
 
 	"pgregory.net/rapid"
 )
@@ -20,6 +21,20 @@ type ScriptedReader struct {
 	Consumed  int
 	Calls     int
 	Desc      string
+	// Err is the error returned at the failure point (default ErrScripted).
+	// io.EOF is what a drained bytes.Reader / file / finite pool returns.
+	Err error
+	// ErrWithData makes the read that delivers the last available bytes return
+	// them together with Err (allowed by the io.Reader contract) instead of
+	// returning (n, nil) first and (0, Err) on the next call.
+	ErrWithData bool
+}
+
+func (r *ScriptedReader) failure() error {
+	if r.Err != nil {
+		return r.Err
+	}
+	return ErrScripted
 }
 
 func (r *ScriptedReader) Read(p []byte) (int, error) {
@@ -32,7 +47,7 @@ func (r *ScriptedReader) Read(p []byte) (int, error) {
 		limit = r.FailAfter
 	}
 	if r.Consumed >= limit {
-		return 0, ErrScripted
+		return 0, r.failure()
 	}
 	n := len(p)
 	if len(r.Chunks) > 0 {
@@ -49,18 +64,38 @@ func (r *ScriptedReader) Read(p []byte) (int, error) {
 	}
 	copy(p, r.Data[r.Consumed:r.Consumed+n])
 	r.Consumed += n
+	if r.ErrWithData && r.Consumed >= limit {
+		return n, r.failure()
+	}
 	return n, nil
+}
+
+// FailureKind draws the error a failing reader reports and whether it comes
+// together with the last data.
+func FailureKind(t *rapid.T, label string) (err error, withData bool, desc string) {
+	desc = Sampled([]string{"custom", "custom", "EOF", "EOF", "ErrUnexpectedEOF", "EOF+data", "custom+data"}).Draw(t, label+"_errkind")
+	switch desc {
+	case "EOF":
+		return io.EOF, false, desc
+	case "ErrUnexpectedEOF":
+		return io.ErrUnexpectedEOF, false, desc
+	case "EOF+data":
+		return io.EOF, true, desc
+	case "custom+data":
+		return ErrScripted, true, desc
+	}
+	return ErrScripted, false, desc
 }
 
 // Clone returns a fresh reader with the same script.
 func (r *ScriptedReader) Clone() *ScriptedReader {
-	return &ScriptedReader{Data: append([]byte(nil), r.Data...), Chunks: append([]int(nil), r.Chunks...), FailAfter: r.FailAfter, Desc: r.Desc}
+	return &ScriptedReader{Data: append([]byte(nil), r.Data...), Chunks: append([]int(nil), r.Chunks...), FailAfter: r.FailAfter, Desc: r.Desc, Err: r.Err, ErrWithData: r.ErrWithData}
 }
 
 // EntropyContent draws n bytes of reader content: constant, counter, zero,
 // all-ones or random.
 func EntropyContent(t *rapid.T, n int, label string) ([]byte, string) {
-	kind := rapid.SampledFrom([]string{"zero", "ones", "constant", "counter", "random", "random"}).Draw(t, label+"_content")
+	kind := Sampled([]string{"zero", "ones", "constant", "counter", "random", "random"}).Draw(t, label+"_content")
 	b := make([]byte, n)
 	switch kind {
 	case "ones":
@@ -86,7 +121,7 @@ func EntropyContent(t *rapid.T, n int, label string) ([]byte, string) {
 func Reader(t *rapid.T, n int, label string) *ScriptedReader {
 	data, kind := EntropyContent(t, n, label)
 	var chunks []int
-	ck := rapid.SampledFrom([]string{"whole", "1-byte", "drawn"}).Draw(t, label+"_chunking")
+	ck := Sampled([]string{"whole", "1-byte", "drawn"}).Draw(t, label+"_chunking")
 	switch ck {
 	case "1-byte":
 		chunks = []int{1}
